@@ -12,11 +12,11 @@ import re
 from . import common as C
 
 THEOREMS = ["subslice_spec", "subslice_wf", "copy_spec", "copyArray_memmove", "append_spec", "appendSlice_spec",
-            "append_fresh_elems_counterexample", "append_fresh_elems_partial",
+            "append_fresh_elems",
             "clone_deep", "copy_in_place", "no_sharing", "value_semantics_partial", "cloneAt_newLocation",
-            "value_semantics_cloneAt", "no_sharing_cloneAt", "value_semantics_counterexample",
-            "value_semantics_counterexample_range", "value_semantics_counterexample_boundCall",
-            "value_semantics_counterexample_ifaceCall"]
+            "value_semantics", "no_sharing_cloneAt", "after_repair_witnesses",
+            "before_repair_growslice", "before_repair_box", "before_repair_range", "before_repair_boundCall",
+            "before_repair_ifaceCall"]
 
 SIG_GROW = "C07 append-realloc elem=struct|array element-objects-shared-with-old-array"
 SIG_BOX = "C07 box-into-interface array|struct value not-cloned"
@@ -1052,15 +1052,17 @@ def program_tie(chk, tier):
 # function -> contexts of `cloneAt` anchored there (emission of `$clone(`, `.copy(`, or a call of
 # translateImplicitConversionWithCloning). A site appearing/disappearing breaks the tie -> search.
 EXPECTED_SITES = {
-    ("expressions.go", "translateExpr", "translateImplicitConversionWithCloning"): 5,   # composite literal elements / keys (4 sites: 147,170x2,181,192 -> 5 calls)
+    ("expressions.go", "translateExpr", "translateImplicitConversionWithCloning"): 5,   # composite literal elements / keys
     ("expressions.go", "makeReceiver", "translateImplicitConversionWithCloning"): 1,     # recvValue, methodValue
     ("expressions.go", "translateConversion", "translateImplicitConversionWithCloning"): 1,
     ("expressions.go", "translateImplicitConversionWithCloning", "$clone("): 1,
-    ("statements.go", "translateStmt", "translateImplicitConversionWithCloning"): 2,     # send, select-send
+    ("expressions.go", "translateImplicitConversion", "$clone("): 2,                     # box: array, struct
+    ("statements.go", "translateStmt", "translateImplicitConversionWithCloning"): 3,     # send, select-send, range operand
     ("statements.go", "translateAssign", "translateImplicitConversionWithCloning"): 2,   # map store key + value
     ("statements.go", "translateAssign", "$clone("): 1,                                   # define
     ("statements.go", "translateAssign", ".copy("): 1,                                    # assign (in place)
     ("utils.go", "translateArgs", "translateImplicitConversionWithCloning"): 1,          # arg
+    ("functions.go", "translateFunctionBody", "$clone("): 1,                              # boundCall, ifaceCall (callee prologue)
 }
 
 
